@@ -527,8 +527,10 @@ def check_content(r, ctx):
             items = [("%s at t=%d" % (tag, t), g) for g in occ]
             if later_required and t < te:
                 required += items
+                ctx.label("later-step-required")
             else:
                 extra += items
+                ctx.label("later-step-allowed")
     scale = max([1.0] + [gg.geo_scale_of(g) for _, g in required + extra])
     bad = match_multiset(drawn, required, extra, 1e-9 * (1 + scale))
     if bad:
